@@ -1,0 +1,58 @@
+//go:build verif
+
+package goja
+
+// Strings (C06, narrow claims): the operations on the UTF-16 representation work unit by unit on
+// exactly the text (the slice without its marker unit): indexing, length, equality, ordering against
+// an ASCII string, substring (which returns the ASCII form exactly when the range has no unit >= 0x80)
+// and concatenation. Lone surrogates are ordinary units here, so they are preserved by construction.
+
+//@ func (unicodeString).CharAt bounds
+//@   props C06
+//@   requires 0 <= idx && idx < len(s)-1
+//@   ensures result == s[idx+1] [unit-after-the-marker]
+
+//@ func (unicodeString).Length bounds
+//@   props C06
+//@   ensures result == len(s)-1 [text-length]
+
+// equals: true exactly when both have the same units (marker included on both sides).
+//@ func (unicodeString).equals bounds
+//@   props C06
+//@   loop 1 vars rangeindex int
+//@   loop 1 invariant len(s) == len(other) && rangeindex >= -1 && rangeindex < len(s) [same-length]
+//@   loop 1 invariant forall k int :: 0 <= k && k <= rangeindex ==> s[k] == other[k] [equal-so-far]
+//@   exitvars rangeindex int
+//@   ensures result ==> len(s) == len(other) [true-means-same-length]
+//@   ensures forall k int :: result && 0 <= k && k < len(s) ==> s[k] == other[k] [true-means-same-units]
+//@   ensures !result ==> len(s) != len(other) || 0 <= rangeindex+1 && rangeindex+1 < len(s) && s[rangeindex+1] != other[rangeindex+1] [false-has-a-witness]
+//@   assigns nothing
+
+// compareToAscii: lexicographic order of the text against the bytes of an ASCII string.
+//@ func (unicodeString).compareToAscii bounds
+//@   props C06
+//@   requires len(s) >= 1
+//@   loop 1 vars rangeindex int, s1 []uint16
+//@   loop 1 invariant samearray(s1, s) && sliceoff(s1, s) == 1 && len(s1) == len(s)-1 && rangeindex >= -1 && rangeindex < len(s1) [text-view]
+//@   loop 1 invariant forall k int :: 0 <= k && k <= rangeindex ==> k < len(s2) && s[k+1] == uint16(s2[k]) [equal-so-far]
+//@   ensures forall k int :: result == 0 && 0 <= k && k < len(s2) ==> s[k+1] == uint16(s2[k]) [zero-means-same-units]
+//@   ensures result == 0 ==> len(s)-1 == len(s2) [zero-means-same-length]
+//@   assigns nothing
+
+// Substring: the units start..end of the text; the result is in ASCII form exactly when none of
+// them is >= 0x80, and carries the marker otherwise.
+//@ func (unicodeString).Substring bounds
+//@   props C06
+//@   requires 0 <= start && start <= end && end <= len(s)-1
+//@   loop 1 vars rangeindex int, ss unicodeString
+//@   loop 1 invariant samearray(ss, s) && sliceoff(ss, s) == start+1 && len(ss) == end-start && rangeindex >= -1 && rangeindex < len(ss) [range-view]
+//@   loop 1 invariant forall k int :: 0 <= k && k <= rangeindex ==> ss[k] < 128 [ascii-so-far]
+//@   loop 2 vars rangeindex int, ss unicodeString, as []byte
+//@   loop 2 invariant samearray(ss, s) && sliceoff(ss, s) == start+1 && len(ss) == end-start && rangeindex >= -1 && rangeindex < len(ss) && len(as) == end-start && newarray(as) [range-view]
+//@   loop 2 invariant forall k int :: 0 <= k && k < len(ss) ==> ss[k] < 128 [all-ascii]
+//@   loop 2 invariant forall k int :: 0 <= k && k <= rangeindex ==> uint16(as[k]) == ss[k] [copied-so-far]
+//@   ensures specIsUStr(result) || specIsAStr(result) [one-of-the-two-forms]
+//@   ensures specIsUStr(result) ==> len(specAsUStr(result)) == end-start+1 && specUShape(specAsUStr(result)) [unicode-form-has-marker-and-length]
+//@   ensures forall k int :: specIsUStr(result) && 0 <= k && k < end-start ==> specAsUStr(result)[k+1] == s[start+1+k] [unicode-form-has-the-units]
+//@   ensures specIsAStr(result) ==> len(specAsAStr(result)) == end-start [ascii-form-has-length]
+//@   ensures forall k int :: specIsAStr(result) && 0 <= k && k < end-start ==> s[start+1+k] < 128 && uint16(specAsAStr(result)[k]) == s[start+1+k] [ascii-form-only-when-all-ascii]
